@@ -430,9 +430,15 @@ func init() {
 		}
 
 		// ---------------- addresses
-		m["(github.com/cosmos/cosmos-sdk/types.AccAddress).String"] = id
-		m["(github.com/cosmos/cosmos-sdk/types.ValAddress).String"] = id
-		m["(github.com/cosmos/cosmos-sdk/types.ConsAddress).String"] = id
+		addrString := func(ex *Exec, fr *frame, cc *ssa.CallCommon, a []Value) Value {
+			if s, ok := a[0].(VStr); ok && s.Atom != nil {
+				return VStr{Atom: s.Atom, N: 45}
+			}
+			return a[0]
+		}
+		m["(github.com/cosmos/cosmos-sdk/types.AccAddress).String"] = addrString
+		m["(github.com/cosmos/cosmos-sdk/types.ValAddress).String"] = addrString
+		m["(github.com/cosmos/cosmos-sdk/types.ConsAddress).String"] = addrString
 		m["(github.com/cosmos/cosmos-sdk/types.AccAddress).Bytes"] = id
 		m["(github.com/cosmos/cosmos-sdk/types.ValAddress).Bytes"] = id
 		m["(github.com/cosmos/cosmos-sdk/types.AccAddress).Equals"] = func(ex *Exec, fr *frame, cc *ssa.CallCommon, a []Value) Value {
@@ -454,7 +460,8 @@ func init() {
 		fromBech := func(ex *Exec, fr *frame, cc *ssa.CallCommon, a []Value) Value {
 			s := a[0].(VStr)
 			if s.Atom != nil {
-				return VTuple{a[0], nilErr()} // String/FromBech32 are mutually inverse injections on address atoms
+				// String/FromBech32 are mutually inverse injections on address atoms
+				return VTuple{VStr{Atom: s.Atom, N: 20}, nilErr()}
 			}
 			if s.Conc != nil && (strings.HasPrefix(*s.Conc, "modaddr:") || strings.HasPrefix(*s.Conc, "addr:")) {
 				return VTuple{a[0], nilErr()}
